@@ -171,7 +171,9 @@ pub fn run(c: &Sexp) -> Sexp {
             if let Some(r) = referer {
                 b = b.header("referer", http::HeaderValue::from_bytes(&r).unwrap());
             }
-            let req = b.body(Bytes::from(c.at(1).bytes())).unwrap();
+            let req = b
+                .body(crate::looprt::framed(&c.at(1).bytes(), crate::looprt::FRAME.with(|f| f.get()).0))
+                .unwrap();
             let w = futures::executor::block_on(async { collect(serve(req).await).await });
             Lst(vec![
                 Num(w.status as i64),
